@@ -60,6 +60,14 @@ impl MlsGroup {
                 && *final(w) == (World { mls: old(w).mls.insert(old(self).view().group_id, final(self).view()), commits_created: old(w).commits_created + 1, last_proposed_extensions: Some(extensions), ..*old(w) }),
             r is Err ==> final(self).view() == old(self).view() && *final(w) == *old(w),
     { unimplemented!() }
+    // MlsGroup::leave_group: a Remove PROPOSAL for the own leaf is created and queued; no commit, no merge, same epoch / members / group data
+    #[verifier::external_body]
+    pub fn leave_group<S: MdkStorageProvider>(&mut self, provider: &MdkProvider<S>, signer: &SignatureKeyPair, Tracked(w): Tracked<&mut World>) -> (r: Result<MlsMessageOut, MlsOpError>)
+        ensures
+            r is Ok ==> final(self).view() == (MlsView { pending_proposals: old(self).view().pending_proposals + 1, ..old(self).view() })
+                && *final(w) == (World { mls: old(w).mls.insert(old(self).view().group_id, final(self).view()), ..*old(w) }),
+            r is Err ==> final(self).view() == old(self).view() && *final(w) == *old(w),
+    { unimplemented!() }
     // the committer refreshes its own leaf (new signature key, same identity). Like the other builders it sweeps the
     // whole proposal store into the commit; C05: "a commit from a non-admin ... does nothing but refresh its author's
     // own key material" and "never carries out roster changes merely proposed by someone else"
